@@ -827,3 +827,24 @@ def dump_spans(v):
                 walk(y)
     walk(v)
     return out
+
+
+def unsuppressed(g):
+    """a copy of the grammar without any suppression operator: its derivations show every matched token (suppression
+    never changes what is matched, only what a match rule's value contains)"""
+    import copy
+    g2 = copy.deepcopy(g)
+
+    def walk(e):
+        if hasattr(e, 'suppress'):
+            e.suppress = False
+        for attr in ('items', 'alts'):
+            for x in getattr(e, attr, []) or []:
+                walk(x)
+        for attr in ('e', 'sep', 'rhs'):
+            x = getattr(e, attr, None)
+            if x is not None and not isinstance(x, (str, bool, int)):
+                walk(x)
+    for rl in g2.rules:
+        walk(rl.body)
+    return g2
